@@ -562,6 +562,73 @@ pub fn sweep_specs(thorough: bool) -> Vec<Spec> {
     v
 }
 
+fn fkey(x: f32) -> i64 {
+    let b = x.to_bits();
+    if b & 0x8000_0000 != 0 {
+        -((b & 0x7fff_ffff) as i64)
+    } else {
+        b as i64
+    }
+}
+fn fkey_inv(k: i64) -> f32 {
+    if k < 0 {
+        f32::from_bits((-k) as u32 | 0x8000_0000)
+    } else {
+        f32::from_bits(k as u32)
+    }
+}
+/// The acceptance frontier itself, located on the code under test: for each shape (limits, start and
+/// end speed fractions, direction, start position) the end position is bisected over the f32
+/// number line between a rejected and an accepted move until two adjacent floats are found, one
+/// rejected and one accepted; the 24 floats on the accepted side and the frontier pair are returned.
+/// Whatever the constructor tolerates at its edge (a cruise time that rounds to slightly below
+/// zero, a boundary order that only holds away from the edge) is in these profiles and in no grid.
+pub fn located_frontier_specs() -> (Vec<Spec>, usize) {
+    let mut v = Vec::new();
+    let mut located = 0usize;
+    let accepted = |s: &Spec| guard(|| s.build()).is_ok();
+    for &vm in &[1e-2f32, 0.3, 1.0, 30.0, 1e3] {
+        for &am in &[1e-2f32, 0.12, 1.0, 1e3] {
+            for &f0 in &[-0.5f32, 0.0, 0.5, 1.0] {
+                for &f1 in &[-0.5f32, 0.0, 0.5, 1.0] {
+                    for dir in [1.0f64, -1.0] {
+                        for &p0 in &[0.0f32, -250.0] {
+                            let (v0, v1) = ((f0 as f64 * vm as f64 * dir) as f32, (f1 as f64 * vm as f64 * dir) as f32);
+                            let (a0, a1) = (f0 as f64 * vm as f64, f1 as f64 * vm as f64);
+                            let (vmx, amx) = (vm as f64, am as f64);
+                            let dstar = (vmx * vmx - a0 * a0) / (2.0 * amx) + (vmx * vmx - a1 * a1) / (2.0 * amx);
+                            if !(dstar > 1e-6) || dstar > 9.0e3 {
+                                continue;
+                            }
+                            let mk = |p1: f32| Spec { p0, v0, p1, v1, a1: 0.0, vmax: vm, amax: am };
+                            let (mut lo, mut hi) = (fkey((p0 as f64 + dir * dstar * 0.97) as f32), fkey((p0 as f64 + dir * dstar * 1.03) as f32));
+                            // lo: rejected, hi: accepted (on the unchanged tree); otherwise there is no frontier to locate here
+                            if accepted(&mk(fkey_inv(lo))) || !accepted(&mk(fkey_inv(hi))) {
+                                continue;
+                            }
+                            while (hi - lo).abs() > 1 {
+                                let mid = lo + (hi - lo) / 2;
+                                if accepted(&mk(fkey_inv(mid))) {
+                                    hi = mid;
+                                } else {
+                                    lo = mid;
+                                }
+                            }
+                            located += 1;
+                            let step = if hi > lo { 1 } else { -1 };
+                            v.push(mk(fkey_inv(lo)));
+                            for k in 0..24 {
+                                v.push(mk(fkey_inv(hi + step * k)));
+                            }
+                        }
+                    }
+                }
+            }
+        }
+    }
+    (v, located)
+}
+
 pub fn run(ctx: &Ctx, second: bool) -> Vec<Eng> {
     let budget = Budget::secs(if ctx.thorough { 2000 } else { 120 });
     let mut all = specs(ctx.thorough);
@@ -580,6 +647,9 @@ pub fn run(ctx: &Ctx, second: bool) -> Vec<Eng> {
         )
     };
     let ns = { let f = sweep_specs(ctx.thorough); let n = f.len(); all.extend(f); n };
+    let (lf, nloc) = located_frontier_specs();
+    all.extend(lf);
+    e.notes.push(format!("acceptance frontier located on the code under test: {} shapes (5 velocity limits x 4 acceleration limits x 4 start-speed x 4 end-speed fractions x 2 directions x 2 start positions, those with a frontier) bisected over the f32 number line of the end position down to an adjacent rejected/accepted pair of floats; the rejected float and the 24 floats from the first accepted one onward are among the constructor calls", nloc));
     e.bounds = format!("{} constructor calls ({} of them placed on both sides of the acceptance frontier: near-triangular moves; {} of them dense pairwise sweeps of start-speed fraction, end-speed fraction (steps of 1/32) and cruise distance / (vmax^2/amax) (2^(i/8) over 2^-5..2^5) for three non-round limit pairs and both directions)", all.len(), nf, ns);
     par_cases(&mut e, &all, budget, |s, e| {
         e.executions += 1;
